@@ -129,6 +129,18 @@ theorem ndigits_gt_of_ge (n m : Nat) (h : 10 ^ m ≤ n) : m < ndigits n := by
 
 /-! ### `Decimal * COIN`, rounded by the context, then `int()` -/
 
+theorem truncDec_eq_nz (c : Nat) (e : Int) : truncDec c e = truncDecNZ c e := by
+  unfold truncDec
+  by_cases h : c = 0
+  · rw [if_pos h, h]
+    unfold truncDecNZ
+    split
+    · simp
+    · rename_i he
+      have : ndigits 0 = 1 := by rw [ndigits]; simp
+      rw [this, if_pos (by omega)]
+  · rw [if_neg h]
+
 /-- if the exact product `c · 10^e` is a natural number `k` below 10^28, the context rounding does
     not touch it and `int()` returns it -/
 theorem fix_trunc_exact (c : Nat) (e : Int) (k : Nat) (hk : k < 10 ^ 28)
@@ -145,7 +157,7 @@ theorem fix_trunc_exact (c : Nat) (e : Int) (k : Nat) (hk : k < 10 ^ 28)
         · exact absurd h1 (Nat.ne_of_gt (Nat.pow_pos (by omega)))
     refine ⟨0, e, by simp [fix], ?_⟩
     subst hk0
-    unfold truncDec
+    rw [truncDec_eq_nz]; unfold truncDecNZ
     split
     · simp
     · split
@@ -171,7 +183,7 @@ theorem fix_trunc_exact (c : Nat) (e : Int) (k : Nat) (hk : k < 10 ^ 28)
         have h1 : ¬ (e + ↑(ndigits c) - 1 > EMAX) := by unfold EMAX; omega
         have h2 : ndigits c ≤ PREC := hn28
         simp only [hc0, if_false, h1, h2, if_true]
-      · unfold truncDec
+      · rw [truncDec_eq_nz]; unfold truncDecNZ
         simp only [he, if_true]
         exact h
     · -- negative exponent: c = k · 10^m
@@ -196,7 +208,7 @@ theorem fix_trunc_exact (c : Nat) (e : Int) (k : Nat) (hk : k < 10 ^ 28)
         · unfold fix
           have h2 : ndigits c ≤ PREC := hn28
           simp only [hc0, if_false, hov, h2, if_true]
-        · unfold truncDec
+        · rw [truncDec_eq_nz]; unfold truncDecNZ
           have h3 : ¬ (ndigits c ≤ m) := by omega
           simp only [he, if_false, hm1, h3]
           rw [h]; exact Nat.mul_div_cancel _ hp
@@ -225,7 +237,7 @@ theorem fix_trunc_exact (c : Nat) (e : Int) (k : Nat) (hk : k < 10 ^ 28)
           have h3 : ¬ (0 > 5 * 10 ^ (d - 1) ∨ (0 = 5 * 10 ^ (d - 1) ∧ k * 10 ^ (m - d) % 2 = 1)) := by omega
           have h4 : ¬ (e + ↑d + ↑PREC - 1 > EMAX) := by unfold EMAX PREC; omega
           simp only [hc0, if_false, hov, h2, hd', hq, hr, h3, hqn, h4]
-        · unfold truncDec
+        · rw [truncDec_eq_nz]; unfold truncDecNZ
           by_cases hz : 0 ≤ e + (d : Int)
           · have hmd : m - d = 0 := by omega
             have : (e + (d : Int)).toNat = 0 := by omega
@@ -267,18 +279,20 @@ theorem applySign_eq (neg : Bool) (n : Nat) (k : Int) (hn : n = k.natAbs) (h1 : 
   · subst h; cases neg <;> simp
   · rw [h2 h, if_neg (by simp)]; omega
 
-theorem amountInNum_unfold_dec (t : NumText) (h : ¬ (t.frac = none ∧ t.exp = none)) :
+theorem amountInNum_unfold_dec (t : NumText) (h : ¬ (t.frac = none ∧ t.exp = none))
+    (hl : ¬ (t.expo + ndigits t.coeff - 1 > MAX_EMAX ∨ t.expo < MIN_ETINY)) :
     amountInNum t = (fix (t.coeff * COIN) t.expo >>= fun p => pure (applySign t.neg (truncDec p.1 p.2))) := by
   unfold amountInNum
-  rw [if_neg h]
+  rw [if_neg h, if_neg hl]
 
 /-- a text denoting exactly `k` satoshis is converted to `k`, whatever its form -/
-theorem amountInNum_exact (t : NumText) (k : Int) (hk : k.natAbs < 10 ^ 28) (h : t.denotes k) :
-    amountInNum t = .ok k := by
+theorem amountInNum_exact (t : NumText) (hlim : InLimits t) (k : Int) (hk : k.natAbs < 10 ^ 28)
+    (h : t.denotes k) : amountInNum t = .ok k := by
   obtain ⟨hval, hneg, hpos⟩ := h
+  obtain ⟨hl1, hl2, hl3⟩ := hlim
   by_cases hint : t.frac = none ∧ t.exp = none
   · unfold amountInNum
-    rw [if_pos hint]
+    rw [if_pos hint, if_neg (by omega)]
     apply congrArg Except.ok
     apply applySign_eq _ _ _ _ hneg hpos
     have hc : t.coeff = digitsVal t.intDigits := by
@@ -289,7 +303,7 @@ theorem amountInNum_exact (t : NumText) (k : Int) (hk : k.natAbs < 10 ^ 28) (h :
     simp only [Int.zero_add, show (0:Int) ≤ 8 by omega, if_true] at hval
     rw [coin_eq]
     exact hval
-  · rw [amountInNum_unfold_dec t hint]
+  · rw [amountInNum_unfold_dec t hint (by omega)]
     obtain ⟨q, e', hfix, htr⟩ := fix_trunc_exact (t.coeff * COIN) t.expo k.natAbs hk (denotes_shift _ _ _ hval)
     rw [hfix]
     show Except.ok _ = _
@@ -515,14 +529,21 @@ theorem fix_outcomes (c : Nat) (e : Int) : (∃ q, fix c e = .ok q) ∨ fix c e 
         repeat' split
         all_goals first | exact Or.inr rfl | exact Or.inl ⟨_, rfl⟩
 
-/-- received amounts: a JSON number text is converted to an integer or refused with decimal.Overflow;
-    no other exception can come out of `int(Decimal * COIN)` -/
-theorem amountInNum_outcomes (t : NumText) : (∃ k, amountInNum t = .ok k) ∨ amountInNum t = .error overflow := by
+/-- received amounts: a JSON number text is converted to an integer, refused with decimal.Overflow, or
+    (numerals beyond CPython's size limits) rejected with the body as JSONRPCError(-342); no other
+    exception can come out -/
+theorem amountInNum_outcomes (t : NumText) :
+    (∃ k, amountInNum t = .ok k) ∨ amountInNum t = .error overflow ∨ amountInNum t = .error .rpcerr := by
   by_cases hint : t.frac = none ∧ t.exp = none
-  · left; unfold amountInNum; rw [if_pos hint]; exact ⟨_, rfl⟩
-  · rw [amountInNum_unfold_dec t hint]
-    rcases fix_outcomes (t.coeff * COIN) t.expo with ⟨q, hq⟩ | hq
-    · left; rw [hq]; exact ⟨_, rfl⟩
-    · right; rw [hq]; rfl
+  · unfold amountInNum; rw [if_pos hint]
+    by_cases hl : t.intDigits.length > INT_MAX_STR_DIGITS
+    · rw [if_pos hl]; exact Or.inr (Or.inr rfl)
+    · rw [if_neg hl]; exact Or.inl ⟨_, rfl⟩
+  · by_cases hl : t.expo + ndigits t.coeff - 1 > MAX_EMAX ∨ t.expo < MIN_ETINY
+    · unfold amountInNum; rw [if_neg hint, if_pos hl]; exact Or.inr (Or.inr rfl)
+    · rw [amountInNum_unfold_dec t hint hl]
+      rcases fix_outcomes (t.coeff * COIN) t.expo with ⟨q, hq⟩ | hq
+      · left; rw [hq]; exact ⟨_, rfl⟩
+      · right; left; rw [hq]; rfl
 
 end BtcVerif.Rpc
